@@ -37,6 +37,8 @@ def c01(ctx, rep):
     rep.assume("bidict never raises ValueDuplicationError on stores of (k, F(k)) pairs (follows from injectivity, not re-proved)",
                "md5 output bits are not required to be uniform: the argument is independent of hash values")
     m.check_walk(rep, "C01")
+    m.check_walk(rep, "C01.inv", inverse=True)  # the inverse walk writes the shared memo too
+    _gate_content(ctx, m, rep, "C01")
     m.check_salter(rep, "C01")
     m.check_base_init(rep, "C01")
     m.check_subclasses(rep, "C01")
@@ -363,6 +365,8 @@ def c02(ctx, rep):
             if lk and lk[0] == "inverse":
                 rep.fail("C02.direction", m.f_anon.name, "anonymize reads the memo through the inverse view: %s" % show(e.a), where(m.f_anon, e.node))
     _private_merge(ctx, m, rep, "C02.private-both-ways", undo_independent_only=True)
+    _salt_defaulting(ctx, rep, "C02")
+    _gate_content(ctx, m, rep, "C02")
 
 
 def c03(ctx, rep):
@@ -397,6 +401,15 @@ def c03(ctx, rep):
     _one_anonymizer_per_run(ctx, m, rep, "C03")
     # salt defaulting must not replace a given salt
     _salt_defaulting(ctx, rep, "C03")
+    _pin_iterable(m, rep, "C03")
+    m.check_split(rep, "C03")
+    m.check_split(rep, "C03.undo", inverse=True)
+    for f, bad in ((m.f_dean, "direct"), (m.f_inv, "direct"), (m.f_anon, "inverse"), (m.f_fwd, "inverse")):
+        for path in m.A.paths(f).paths:
+            for e, ls in path.calls():
+                lk = m.lookup(e.a)
+                if lk and lk[0] == bad:
+                    rep.fail("C03.direction", f.name, "%s reads the memo through the %s view: %s (a request of the other direction can then change this answer)" % (f.name, bad, show(e.a)), where(f, e.node), key="C03.direction|%s" % f.name)
 
 
 def _one_anonymizer_per_run(ctx, m, rep, cl):
@@ -633,6 +646,47 @@ def c04(ctx, rep):
     memo_uses(m, rep, "C04")
 
 
+
+def _gate_content(ctx, m, rep, cl):
+    """should_anonymize = not (mask(ip_int) or any(ip in n for n in ALL preserved networks)); mask predicate pure."""
+    f = m.method(m.v4, "should_anonymize")
+    rep.analysed(f)
+    ipint = ("param", f.params[1])
+    for path in m.A.paths(f).paths:
+        w = where(f, path.result[2] if path.result else f.node)
+        r = path.returned()
+        if path.kind != "return" or path.conds:
+            rep.fail(cl + ".gate-shape", f.name, "unrecognised gate: %s under %s" % (show(r), path.describe()), w)
+            continue
+        ok = r[0] == "unop" and r[1] == "not" and r[2][0] == "boolop" and r[2][1] == "or"
+        if not ok:
+            rep.fail(cl + ".gate-shape", f.name, "gate returns %s; expected not (mask(ip_int) or any(ip in n for n in preserved))" % show(r), w, key=cl + ".gate-shape|should_anonymize")
+            continue
+        dis = r[2][2]
+        mask = [d for d in dis if M.is_call(d) and d[1] == ("attr", SELF, "_is_mask")]
+        rep.ob(cl + ".gate-mask", f.name, len(mask) == 1 and mask[0][2] == (ipint,), "mask disjunct: %s; expected self._is_mask(<the same integer>)" % [show(x) for x in mask], w, key=cl + ".gate-mask|should_anonymize")
+        memb = [d for d in dis if M.builtin_call(d, "any", 1)]
+        okm = False
+        detail = [show(x) for x in memb]
+        if len(memb) == 1:
+            a = memb[0][2][0]
+            if a[0] == "comp" and len(a[4]) == 1:
+                tgt, it, conds = a[4][0]
+                elt = a[3]
+                ipobj = ("call", ("attr", ("global", f.module.name, "ipaddress"), "ip_address"), (ipint,), ())
+                okm = it == ("attr", SELF, "_preserve_addresses") and not conds and elt[0] == "compare" and elt[1] == ("in",) and elt[2][1] == tgt and elt[2][0] in (ipobj,)
+        rep.ob(cl + ".gate-membership", f.name, okm, "membership disjunct: %s; expected any(ip in n for n in self._preserve_addresses) over ALL preserved networks" % detail, w, key=cl + ".gate-membership|should_anonymize")
+        rep.ob(cl + ".gate-disjuncts", f.name, len(dis) == 2, "gate has %d disjuncts" % len(dis), w, nontrivial=False)
+    # mask predicate: pure function of its integer
+    fm = m.method(m.v4, "_is_mask")
+    rep.analysed(fm)
+    for path in m.A.paths(fm).paths:
+        r = path.returned()
+        leaves = {s for s in subterms(r) if s[0] in ("param", "global", "attr", "builtin", "unbound")} if r else set()
+        ok = path.kind == "return" and leaves <= {("param", fm.params[1])} and not list(path.calls())
+        rep.ob(cl + ".mask-pure", fm.name, ok, "mask predicate is a call-free function of its integer argument only (leaves %s)" % sorted(show(x) for x in leaves), where(fm))
+
+
 def c05(ctx, rep):
     m = IpModel(ctx)
     rep.explanation = (
@@ -645,43 +699,7 @@ def c05(ctx, rep):
     rep.trust(*TRUST_IP)
     rep.assume("_is_mask's bit twiddle accepts exactly the 64 mask/wildcard words (undecided here: arithmetic identity over 32-bit integers)")
     _undo_threading(ctx, m, rep, "C05")
-    # gate content
-    f = m.method(m.v4, "should_anonymize")
-    rep.analysed(f)
-    ipint = ("param", f.params[1])
-    for path in m.A.paths(f).paths:
-        w = where(f, path.result[2] if path.result else f.node)
-        r = path.returned()
-        if path.kind != "return" or path.conds:
-            rep.fail("C05.gate-shape", f.name, "unrecognised gate: %s under %s" % (show(r), path.describe()), w)
-            continue
-        ok = r[0] == "unop" and r[1] == "not" and r[2][0] == "boolop" and r[2][1] == "or"
-        if not ok:
-            rep.fail("C05.gate-shape", f.name, "gate returns %s; expected not (mask(ip_int) or any(ip in n for n in preserved))" % show(r), w, key="C05.gate-shape|should_anonymize")
-            continue
-        dis = r[2][2]
-        mask = [d for d in dis if M.is_call(d) and d[1] == ("attr", SELF, "_is_mask")]
-        rep.ob("C05.gate-mask", f.name, len(mask) == 1 and mask[0][2] == (ipint,), "mask disjunct: %s; expected self._is_mask(<the same integer>)" % [show(x) for x in mask], w, key="C05.gate-mask|should_anonymize")
-        memb = [d for d in dis if M.builtin_call(d, "any", 1)]
-        okm = False
-        detail = [show(x) for x in memb]
-        if len(memb) == 1:
-            a = memb[0][2][0]
-            if a[0] == "comp" and len(a[4]) == 1:
-                tgt, it, conds = a[4][0]
-                elt = a[3]
-                ipobj = ("call", ("attr", ("global", f.module.name, "ipaddress"), "ip_address"), (ipint,), ())
-                okm = it == ("attr", SELF, "_preserve_addresses") and not conds and elt[0] == "compare" and elt[1] == ("in",) and elt[2][1] == tgt and elt[2][0] in (ipobj,)
-        rep.ob("C05.gate-membership", f.name, okm, "membership disjunct: %s; expected any(ip in n for n in self._preserve_addresses) over ALL preserved networks" % detail, w, key="C05.gate-membership|should_anonymize")
-        rep.ob("C05.gate-disjuncts", f.name, len(dis) == 2, "gate has %d disjuncts" % len(dis), w, nontrivial=False)
-    # mask predicate: pure function of its integer
-    fm = m.method(m.v4, "_is_mask")
-    rep.analysed(fm)
-    for path in m.A.paths(fm).paths:
-        r = path.returned()
-        leaves = {s for s in subterms(r) if s[0] in ("param", "global", "attr", "builtin", "unbound")} if r else set()
-        ok = path.kind == "return" and leaves <= {("param", fm.params[1])} and not list(path.calls())
-        rep.ob("C05.mask-pure", fm.name, ok, "mask predicate is a call-free function of its integer argument only (leaves %s)" % sorted(show(x) for x in leaves), where(fm))
+    _gate_content(ctx, m, rep, "C05")
     # _preserve_addresses built from every element
     fn = m.f_v4init
     for path in m.A.paths(fn).paths:
@@ -803,6 +821,9 @@ def c17(ctx, rep):
     rep.analysed(fr)
     for path in A.paths(fr).paths:
         r = path.returned()
+        if len(fr.params) < 2:
+            rep.fail("C17.renderer", fr.name, "renderer signature changed: %s" % fr.params, where(fr), key="C17.renderer|_ip_to_str")
+            continue
         bp = ("param", fr.params[1])
         want = ("call", ("builtin", "str"), (("call", ("attr", ("param", fr.params[0]), "make_addr_from_int"), (("call", ("builtin", "int"), (bp, ("const", 2)), ()),), ()),), ())
         rep.ob("C17.renderer", fr.name, r == want, "renderer returns %s; expected str(cls.make_addr_from_int(int(bits, 2))) (the family's own address type)" % show(r), where(fr), key="C17.renderer|_ip_to_str")
@@ -842,6 +863,8 @@ def c17(ctx, rep):
     rep.ob("C17.dump-paths", "anonymize_files", n >= 1, "paths with a dump file examined: %d" % n, where(f_files), nontrivial=False)
     # main allows a dump only with --anonymize-ips
     _dump_requires_ips(ctx, rep, "C17")
+    _cli_defaults(ctx, rep, "C17")
+    _undo_threading(ctx, m, rep, "C17")
 
 
 def _dump_requires_ips(ctx, rep, cl):
